@@ -86,7 +86,7 @@ class Kernel:
         self.clock = 1000.0
         self.handlers = {SIGINT: "default_int_handler"}
         self.wakeup_fd = -1
-        self.tty_attrs = ["attrs0"]
+        self.tty_attrs = ["cooked"] + [3, 28, 127, 21, 4, 0, 1, 0, 17, 19, 26, 0, 18, 15, 23, 22] + [0] * 16  # mode, then 32 control characters
         self.closed = set()
         self.in_request = False
         self.log = []
@@ -97,7 +97,7 @@ class Kernel:
         self.select = types.SimpleNamespace(select=self.select_)
         self.time = types.SimpleNamespace(time=self.time_)
         self.fcntl = types.SimpleNamespace(fcntl=self.fcntl_, F_GETFL=F_GETFL, F_SETFL=F_SETFL)
-        self.termios = types.SimpleNamespace(tcgetattr=self.tcgetattr, tcsetattr=self.tcsetattr, TCSANOW=0, VSTOP=9, VSTART=8, VSUSP=10)
+        self.termios = types.SimpleNamespace(tcgetattr=self.tcgetattr, tcsetattr=self.tcsetattr, TCSANOW=0, TCSADRAIN=1, TCSAFLUSH=2, VSTOP=9, VSTART=8, VSUSP=10)
         self.tty = types.SimpleNamespace(setcbreak=self.setcbreak)
         self.signal = types.SimpleNamespace(signal=self.signal_, getsignal=self.getsignal, set_wakeup_fd=self.set_wakeup_fd, SIGINT=SIGINT, default_int_handler="default_int_handler")
 
@@ -184,13 +184,19 @@ class Kernel:
         raise HarnessError("fcntl cmd %r not modelled" % cmd)
 
     def tcgetattr(self, stream):
-        return [0, 0, 0, 0, 0, 0, list(self.tty_attrs)]
+        return [0, 0, 0, self.tty_attrs[0], 0, 0, list(self.tty_attrs[1:])]
+
+    def _flush_input(self, when):
+        if when == 2:  # TCSAFLUSH: everything received but not yet read is discarded
+            del self.fds[self.TTY]["buf"][:]
 
     def tcsetattr(self, stream, when, attrs):
-        self.tty_attrs = list(attrs[-1]) if isinstance(attrs[-1], list) else [attrs[-1]]
+        self._flush_input(when)
+        self.tty_attrs = [attrs[3]] + list(attrs[6])
 
-    def setcbreak(self, stream, when=0):
-        self.tty_attrs = ["cbreak"]
+    def setcbreak(self, stream, when=2):  # tty.setcbreak's default is TCSAFLUSH
+        self._flush_input(when)
+        self.tty_attrs = ["cbreak"] + self.tty_attrs[1:7] + [1, 0] + self.tty_attrs[9:]  # VMIN=1, VTIME=0
 
     # ---- signal -----------------------------------------------------------------------------------------------
     def signal_(self, signum, handler):
